@@ -69,3 +69,21 @@ Theorem C05_ram_bundle : forall bs, (forall b, parse bs = Ok b -> is_panic (star
   /\ is_panic (parse bs) = false.
 Proof. exact C20_no_panic. Qed.
 Print Assumptions C05_ram_bundle.
+
+(* "... and the serialised form decodes again": every decoded regular map is a well-formed map, so its serialised form
+   decodes, and serialising that result again gives the same value (C01's last sentence, literally for decoded maps).
+   Hypotheses: fewer than 2^32-1 sources and names, fewer than 2^32 lines in `mappings` (a 4 GiB string). *)
+From SM Require Import Proofs.RoundtripProofs Proofs.DecodeWf.
+Theorem C05_decoded_is_wf : forall r m,
+  zlen (odefault [] (r_sources r)) <= NONE -> zlen (odefault [] (r_names r)) <= NONE ->
+  zlen (split_on 59 (odefault [] (r_mappings r))) <= two32 ->
+  decode_regular r = Ok m -> wf_map m.
+Proof. exact DecodeWf.decode_regular_wf. Qed.
+Print Assumptions C05_decoded_is_wf.
+Theorem C05_reencode_decodes : forall r m,
+  zlen (odefault [] (r_sources r)) <= NONE -> zlen (odefault [] (r_names r)) <= NONE ->
+  zlen (split_on 59 (odefault [] (r_mappings r))) <= two32 ->
+  decode_regular r = Ok m ->
+  exists m', decode_regular (sm_as_raw m) = Ok m' /\ sm_as_raw m' = sm_as_raw m.
+Proof. exact DecodeWf.C05_reencode_decodes. Qed.
+Print Assumptions C05_reencode_decodes.
